@@ -26,10 +26,12 @@ TIERS = {
     "quick": {"shards": 2, "cases": 6000, "timeout": 300},
     "thorough": {"shards": 16, "cases": 60000, "timeout": 3000},
 }
-FLOORS = {"quick": {"distinct_nontrivial": 4000, "chunks_checked": 12000, "invalid_values_rejected": 1000,
+FLOORS = {"quick": {"single_chunks_formatted_to_a_width": 1500, "texts_of_a_derived_class_used_as_operands": 1500,
+                    "distinct_nontrivial": 4000, "chunks_checked": 12000, "invalid_values_rejected": 1000,
                     "exhaustive_single_colour_specs": 1008, "strip_checks": 12000, "bytes_checks": 5000,
                     "multi_chunk_texts": 1000},
-          "thorough": {"distinct_nontrivial": 200000, "chunks_checked": 900000, "invalid_values_rejected": 100000,
+          "thorough": {"single_chunks_formatted_to_a_width": 6000, "texts_of_a_derived_class_used_as_operands": 6000,
+                       "distinct_nontrivial": 200000, "chunks_checked": 900000, "invalid_values_rejected": 100000,
                        "exhaustive_single_colour_specs": 1008, "strip_checks": 900000, "bytes_checks": 400000,
                        "multi_chunk_texts": 100000}}
 LEVEL_TEXT = ("Runtime exploration with a terminal model; the single-colour value space (504 values x fg/bg) and "
